@@ -52,6 +52,7 @@ var c03Lib = []string{
 	"geni = (k) -> {\ni = 0\nwhile true {\nyield () -> i + k\ni = i + 1\n}\n}",
 	"firstc = (k, skip) -> {\nfor f <- geni(k) {\nif skip <= 0 return f\nskip = skip - 1\n}\n}",
 	"abandon = (k, skip, n) -> {\nc = firstc(k, skip)\ns = 0\nfor v, w <- fromto(0, n), fromto(5, 50) s = s + v * w\nfor u <- fromto(0, 2) for x <- fromto(0, 2) s = s + u + x\n[c(), s, c()]\n}",
+	"pickq = (n) -> {\nif n > 99 la = 0\nlb = 7\nif n > 99 lc = 0\nld = 8\nif n > 99 le = 0\nlf = 9\nif n == 0 return la\nif n == 1 return lc\nle\n}",
 	"pick = (n) -> {\nif n > 0 a = n * 3\nb = n + 1\nif n > 1 c = n\n[a, b, c]\n}",
 	"map = (f, it) -> for e <- it() yield f(e)",
 	"itclos = (k, n) -> {\ns = 0\nfor v <- map((x) -> x + k, () -> fromto(0, n)) s = s + v\ns\n}",
@@ -106,6 +107,10 @@ func c03Calls(t *rapid.T) (call, other string, heavy bool) {
 			return fmt.Sprintf("shared(%d)", n(20)), true
 		case 15:
 			// reads locals it may never have assigned: they must be nil, whatever was on the stack before
+			if rapid.Bool().Draw(t, "quiet") {
+				// the same without building a list: nothing is pushed beyond the frame
+				return fmt.Sprintf("pickq(%d)", n(2)), true
+			}
 			return fmt.Sprintf("pick(%d)", n(3)), true
 		default:
 			return fmt.Sprintf("app(twice(adder(%d)), %d) + sum(%d)", n(9), n(9), n(6)), true
